@@ -62,9 +62,12 @@ def v1_counts(b):
 # ------------------------------------------------------------------ synthetic streams
 
 def mk_tzif(trans, types, isstd=None, isgmt=None, leaps=(), version=b"\0", shared_abbr=False,
-            counts=None, tail=b""):
-    """version-1 TZif block.  trans: [(utc, type index)], types: [(off, isdst, abbr)]"""
-    if shared_abbr:
+            counts=None, tail=b"", abbr_table=None):
+    """version-1 TZif block.  trans: [(utc, type index)], types: [(off, isdst, abbr)];
+    abbr_table=(table bytes, [index per type]) overrides the abbreviation layout (zic-style sharing)"""
+    if abbr_table is not None:
+        table, idx = abbr_table
+    elif shared_abbr:
         table, idx = b"", []
         for _, _, a in types:
             a = a.encode() + b"\0"
@@ -154,6 +157,29 @@ def synthetic_shapes():
         [(T0, 1), (T0 + 100 * d, 2), (T0 + 200 * d, 0), (T0 + 300 * d, 1)],
         [(0, 0, "GMT"), (H, 1, "BST"), (H, 0, "BST")], isstd=[1, 0, 1], isgmt=[1, 0],
         leaps=[(78796800, 1), (94694401, 2)], shared_abbr=True, tail=b"TZif2 trailing v2 data")
+    # abbreviation tables beyond 127 bytes (tt_abbrind is an UNSIGNED byte; /repo 3b2dec8) ----------
+    d30 = 30 * d
+    S["abbr_table_200_bytes_40_types"] = mk_tzif(
+        [(T0 + i * d30, i) for i in range(40)], [(i * 900, i % 3 == 1, "A%03d" % i) for i in range(40)])
+    S["abbr_table_250_bytes_50_types"] = mk_tzif(
+        [(T0 + i * d30, (i * 7) % 50) for i in range(60)], [(-36000 + i * 1800, i % 2, "Z%03d" % i) for i in range(50)])
+    S["abbr_table_256_bytes_last_index_255"] = mk_tzif(
+        [(T0 + i * d30, i) for i in range(52)],
+        [(i * 600, 0, "B%03d" % i) for i in range(51)] + [(3600, 1, "")],          # 51*5 = 255, then "" at index 255
+    )
+    S["abbr_index_128_boundary"] = mk_tzif(
+        [(T0 + i * d30, i) for i in range(30)], [(i * 1200, i % 2, "C%02d" % i) for i in range(33)])   # starts 0,4,…,128
+    # zic-style sharing: HST is a suffix of AHST, several types point into one string
+    tbl = b"LMT\0AHST\0HDT\0HWT\0HPT\0"
+    S["abbr_suffix_shared_AHST_HST"] = mk_tzif(
+        [(T0, 1), (T0 + 100 * d, 2), (T0 + 200 * d, 3), (T0 + 300 * d, 4), (T0 + 400 * d, 5), (T0 + 500 * d, 2)],
+        [(-37886, 0, "LMT"), (-36000, 0, "AHST"), (-36000, 0, "HST"), (-32400, 1, "HDT"), (-32400, 1, "HWT"), (-32400, 1, "HPT")],
+        abbr_table=(tbl, [0, 4, 5, 9, 13, 17]))
+    big = b"".join(b"L%03d\0" % i for i in range(45))                                    # 225 bytes, suffix pointers beyond 127
+    S["abbr_suffix_shared_beyond_127"] = mk_tzif(
+        [(T0 + i * d30, i) for i in range(45)],
+        [(i * 300, i % 2, ("L%03d" % i)[(i % 3):]) for i in range(45)],
+        abbr_table=(big, [i * 5 + (i % 3) for i in range(45)]))
     S["forward_larger_than_spacing"] = mk_tzif(
         [(T0, 1), (T0 + 1800, 2), (T0 + 100 * d, 0), (T0 + 200 * d, 1)],
         [(0, 0, "AAA"), (2 * H, 0, "BBB"), (5 * H, 0, "CCC")])
